@@ -35,11 +35,18 @@ RULE = ("labels: random number trees (leaf-only, balanced, degenerate chains, co
         "keys, str names against the PDF-1.1 Dests dictionary); text: random strings in both encodings incl. surrogate "
         "pairs, every PDFDocEncoding byte; every labels / outline / names case is also observed repeatedly on ONE "
         "PDFDocument (second pass, interleaved generators, reverse order), with nested page trees, page selection, "
-        "indirect scalar values and caching=False; formatters: roman exhaustively 1..3999, alpha 1..N.  A case is non-trivial "
-        "when it is a distinct input with >= 2 ranges / >= 2 outline items / a tree with Kids / a non-ASCII string.")
+        "indirect scalar values and caching=False; formatters: roman exhaustively 1..3999 and sampled up to 200000, alpha 1..N; "
+        "_format_page_label directly on random (style, value) incl. unknown styles; get_dest soundness (a returned value is associated "
+        "with the key) is judged on non-conforming name trees too.  A case is non-trivial when it is a distinct input with >= 2 ranges / >= 2 outline items / a tree with Kids / a non-ASCII string.")
 TRUSTED_BASE = [
-    "tools/translate/gen_c17.py (Python ast -> Lean) for ROMAN_ONES, ROMAN_FIVES, PDFDocEncoding - each translated "
-    "table is also run against the Python original (roman exhaustively, all 256 bytes)",
+    "tools/translate/gen_c17.py (Python ast -> Lean) for ROMAN_ONES, ROMAN_FIVES, PDFDocEncoding and, since round 6, the "
+    "straight-line code of format_int_roman / format_int_alpha (assert, prologue, while test, loop body, epilogue), the "
+    "if/elif chain of PageLabels._format_page_label and the St/P defaults, range_length and range(...) of PageLabels.labels "
+    "(Gen/LabelCode.lean) - everything translated is run against the Python original (gen.roman exhaustively 1..3999 and "
+    "sampled to 200000, gen.alpha, gen.label against the static method, all 256 bytes) and proved equal to the hand models",
+    "lean/PdfVerif/Model/LabelsPy.lean: the reading of the Python primitives the translated code is written in (list/str "
+    "indexing with negative indices and IndexError, list.insert clipping, str * int) and the hand-written `while` glue of "
+    "Model/LabelsGen.lean (pass budget)",
     "hand models lean/PdfVerif/Model/Labels.lean (NumberTree._parse/values incl. settings.STRICT, PageLabels.labels, "
     "_format_page_label, format_int_roman/alpha, decode_text), Model/Outline.lean (get_outlines.search on unfolded "
     "entries), Model/OutlineGraph.lean (the same walk on an object graph with the visited set), Model/NameTree.lean "
@@ -52,7 +59,7 @@ ASSUMPTIONS = [
     "below Python's recursion limit (generated depth <= 60)",
     "domain of the property oracle = conforming structures: keys strictly ascending in order, first page-label key 0, "
     "St >= 1, every non-root node carries Limits bounding its keys with siblings separated, destinations are non-empty "
-    "arrays/dictionaries, roman values < 4000, text strings use defined PDFDocEncoding codes or well-formed UTF-16BE",
+    "arrays/dictionaries, roman values >= 1, text strings use defined PDFDocEncoding codes or well-formed UTF-16BE",
     "PDFDocEncoding code 0x16 maps to U+0017 as printed in ISO 32000-1 Table D.2",
     "settings.STRICT False (default) for everything; label extraction additionally under settings.STRICT = True",
 ]
@@ -60,12 +67,35 @@ STATEMENT_STATUS = {
     "pdfdoc_table_total": "proved (regenerated table has 256 entries)",
     "pdfdoc_table_spec": "proved: every defined code of ISO 32000-1 Table D.2 (kernel sweep over 256 bytes)",
     "decode_text_spec": "proved for all strings in the domain (well-formed UTF-16BE with BOM, defined PDFDocEncoding codes)",
-    "roman_correct": "proved for all 0 < n < 4000 (kernel sweep against the regenerated ROMAN_* tables)",
+    "roman_correct_all": "proved for EVERY n >= 1 (low three digits: kernel sweep against the regenerated ROMAN_* tables; "
+                         "thousands: any number of m, 4000 -> mmmm) - full statement since the round-6 fix",
+    "roman_correct": "proved (the n < 4000 instance of roman_correct_all, kept for its users)",
     "roman_value": "proved (sanity of the specification: numeral reads back as n)",
-    "roman_outside": "proved (AssertionError outside 0 < n < 4000 is modelled)",
+    "roman_outside": "proved (AssertionError for n <= 0 is modelled; no upper bound since the round-6 fix)",
     "alpha_statement": "full statement for styles A/a; proved FALSE on the pinned code: alpha_cex (28 -> 'ab', ISO 'bb'); "
                        "open finding alpha-repeat",
     "alpha_partial": "partial: values 1..26 only",
+    "roman_body_translated": "proved for every state: one pass of the TRANSLATED while body of format_int_roman = the hand "
+                             "model's step (IndexError included)",
+    "roman_translated": "proved for every integer: format_int_roman assembled from the translated assert/test/body/tail = hand model",
+    "roman_translated_correct": "proved for EVERY n >= 1: the translated code writes the subtractive-notation numeral",
+    "roman_translated_outside": "proved: the translated assert raises for n <= 0",
+    "format_page_label_translated": "proved for every value and style: the TRANSLATED if/elif chain of _format_page_label over the "
+                                    "translated numeral functions = hand model",
+    "labels_range_translated": "proved: a non-final range of PageLabels.labels from the TRANSLATED St/P defaults, range_length and "
+                               "range(...) = the hand model's generator",
+    "alpha_body_translated": "proved for every positive value and partial result: one pass of the TRANSLATED while body of "
+                             "format_int_alpha (never IndexError)",
+    "alpha_translated": "proved for every integer: format_int_alpha assembled from the translated pieces = hand model",
+    "alpha_translated_bijective": "proved for every n > 0 about the translated code: numeral read in bijective base 26 is n",
+    "alpha_translated_cex": "proved: the translated code maps 28 to 'ab' (open finding alpha-repeat)",
+    "alpha_characterised": "proved for every n > 0 and every string t: format_int_alpha(n) = t iff t is lowercase letters reading n in "
+                           "bijective base 26 (complete characterisation of the pinned letters numeral)",
+    "bijNumeral_unique": "proved: a value has at most one bijective base-26 letters numeral",
+    "numeral_full": "proved FULL (no value bound): wherever ISO defines a numeral the code returns normally - Table 159 for D/R/r/none, "
+                    "the unique bijective base-26 numeral for A/a (open finding alpha-repeat, nothing else)",
+    "C17_label_full": "proved FULL for every conforming tree and every page with a defined label, all styles, all values: "
+                      "prefix ++ numeral of numeral_full",
     "alpha_fuel_suffices": "proved (the loop bound of the letters model is never hit)",
     "numtree_flatten": "proved for every tree shape (mutual induction)",
     "numtree_values": "proved: values = in-order flattening when keys ascend",
@@ -79,9 +109,18 @@ STATEMENT_STATUS = {
     "alpha_bijective": "proved for every n > 0: the code's letters numeral read in bijective base 26 is n (what the code "
                        "does instead of Table 159)",
     "C17_label_strict": "proved: with settings.STRICT = True a conforming tree gives exactly the default-mode labels",
+    "C17_nametree_sound": "proved for EVERY name tree (unsorted, duplicates, wrong/missing Limits, Names+Kids): a returned "
+                          "value is associated with the key in the tree",
+    "C17_nametree_last_wins": "proved: in a Names array the LAST duplicate of a key wins (dict semantics), any order",
+    "C17_dest_sound": "proved for every catalog: string results come from the name tree, name results from /Dests",
     "C17_nametree_sorted": "proved: flattening of a conforming name tree is strictly ascending (keys unique)",
     "C17_outline_terminates": "proved for every finite object graph incl. cycles, shared and dangling links: budget "
                               "|store|+1 never exhausted, no object visited twice",
+    "C17_outline_graph_eq": "proved for EVERY store and every entry stored in it under distinct object ids: the graph walk with its "
+                            "visited set (the repaired code) = the term model",
+    "C17_outline_graph": "proved FULL: every forest in the domain stored as indirect objects anywhere in an object graph: "
+                         "get_outlines (graph walk) = preorder with levels",
+    "roman_value_all": "proved for every n (sanity of the specification: leading m are never subtracted)",
     "C17_outline_graph_total": "proved (get_outlines on a graph always returns)",
     "C17_nametree": "proved for every conforming name tree and every key (found value / KeyError)",
     "C17_dest": "proved: get_dest = specification for strings (name tree) and names (Dests dictionary)",
@@ -165,13 +204,13 @@ _ROMAN = [(1000, "m"), (900, "cm"), (500, "d"), (400, "cd"), (100, "c"), (90, "x
 
 
 def spec_roman(n: int) -> Optional[str]:
-    if not 0 < n < 4000:
+    """Greedy subtractive notation for every n >= 1 (no numeral above m: 4000 -> mmmm)."""
+    if n < 1:
         return None
     out = []
     for v, s in _ROMAN:
-        while n >= v:
-            out.append(s)
-            n -= v
+        out.append(s * (n // v))
+        n %= v
     return "".join(out)
 
 
@@ -1005,9 +1044,9 @@ def gen_label_dict(rng, wild: bool) -> Dict[str, Any]:
     elif r < 0.5:
         ld["St"] = 1
     else:
-        top = {"R": 3990, "r": 3990}.get(s, 100000)
+        top = {"R": 30000, "r": 30000}.get(s, 100000)
         ld["St"] = rng.choice([2, 3, 4, 5, 9, 14, 25, 26, 27, 28, 40, 52, 53, 99, 400, 676, 702, 703, 1987, 3888,
-                               rng.randint(1, 60), rng.randint(1, top)])
+                               3998, 4000, 4999, rng.randint(1, 60), rng.randint(1, top)])
         if ld["St"] > top:
             ld["St"] = rng.randint(1, top)
     if wild and rng.random() < 0.2:
@@ -1673,6 +1712,26 @@ def eval_names(ctx: C.Ctx, batch: Batch, case, wild: bool) -> None:
                            {"component": "names-history", "observation": hist[0]}))
     it = Intern()
     npages = case.get("npages", 3)
+    # soundness on EVERY catalog, conforming or not (C17_nametree_sound / C17_dest_sound): a value returned for a
+    # string is associated with that key in the name tree, one returned for a name object with that name in /Dests
+    for q, r in zip(case["queries"], impl):
+        if not r.startswith("V:"):
+            continue
+        try:
+            if q[0] == "b":
+                cands = [expected_dest_canon(v, npages) for k, v in flatten_names(tree) if k == unh(q[1])] \
+                    if tree and not case.get("names_cat_missing") else []
+            else:
+                cands = [expected_dest_canon(case["dict"][q[1]], npages)] \
+                    if case.get("dict") and q[1] in case["dict"] else []
+        except (ValueError, TypeError, KeyError, IndexError):
+            continue                      # junk values of wild cases have no canonical form
+        ctx.branch("dest:sound:" + ("wild" if wild else "domain"))
+        if r[2:] not in cands:
+            ctx.fail(C.Failure("get_dest(name) returns a value the name tree / Dests dictionary does not associate with "
+                               "that name", dict(case, queries=[q]), "one of %r" % (cands,), r,
+                               {"component": "names-sound", "key_type": "str" if q[0] == "s" else "bytes"}))
+            break
     # register expected values first so that ids are stable
     tsx = "-" if (tree is None or case.get("names_cat_missing")) else sx_nametree(tree, it, npages)
     dsx = "-" if case.get("dict") is None else "(D" + "".join(
@@ -1798,19 +1857,47 @@ def run_formatters(ctx: C.Ctx, batch: Batch) -> None:
         ctx.case(("roman", n), True, branch="roman")
         batch.add("roman %d" % n, "roman", {"kind": "roman", "value": n}, cps(got) if not got.startswith("E:") else got,
                   "model")
+        batch.add("gen.roman %d" % n, "gen.roman", {"kind": "roman", "value": n},
+                  cps(got) if not got.startswith("E:") else got, "model")
+        ctx.branch("translated:format_int_roman")
         batch.add("spec.roman %d" % n, "spec.roman", {"kind": "roman", "value": n}, cps(exp), "spec")
         if got != exp and bad is None:
             bad = (n, exp, got)
     if bad:
         ctx.fail(C.Failure("format_int_roman differs from the subtractive-notation numeral",
                            {"kind": "roman", "value": bad[0]}, bad[1], bad[2], {"component": "roman"}))
-    for n in (0, -1, 4000, 4001, 9000, 10000):
+    # past 3999 (since the round-6 fix part of the domain: thousands = repeated m) and the assertion
+    big = list(range(4000, 4000 + ctx.n(300, 3000))) + [4999, 5000, 9999, 10000, 12345, 39999, 40000] \
+        + [ctx.rng.randint(4000, 200000) for _ in range(ctx.n(200, 2000))]
+    for n in big + [0, -1, -4000]:
         try:
-            got = cps(U.format_int_roman(n))
+            got = U.format_int_roman(n)
         except Exception as e:  # noqa: BLE001
             got = "E:" + type(e).__name__
-        ctx.branch("roman:outside:" + got[:20])
-        batch.add("roman %d" % n, "roman", {"kind": "roman", "value": n}, got, "model")
+        exp = spec_roman(n)
+        ctx.case(("roman", n), True, branch="roman>=4000" if n >= 4000 else "roman:outside:" + got[:20])
+        shown = cps(got) if not got.startswith("E:") else got
+        batch.add("roman %d" % n, "roman", {"kind": "roman", "value": n}, shown, "model")
+        batch.add("gen.roman %d" % n, "gen.roman", {"kind": "roman", "value": n}, shown, "model")
+        if exp is not None:
+            batch.add("spec.roman %d" % n, "spec.roman", {"kind": "roman", "value": n}, cps(exp), "spec")
+            if got != exp and bad is None:
+                bad = (n, exp, got)
+                ctx.fail(C.Failure("format_int_roman differs from the subtractive-notation numeral",
+                                   {"kind": "roman", "value": n}, exp, got, {"component": "roman"}))
+    # PageLabels._format_page_label itself (static method) against the translated if/elif chain (gen.label)
+    from pdfminer.pdfdocument import PageLabels
+    from pdfminer.psparser import LIT
+    for _ in range(ctx.n(400, 4000)):
+        st = ctx.rng.choice(["D", "R", "r", "A", "a", "-", "D", "R", "r", "A", "a", "x", "d", "Roman", "AA"])
+        v = ctx.rng.choice([ctx.rng.randint(-3, 60), ctx.rng.randint(1, 5000), ctx.rng.randint(1, 10 ** 6)])
+        try:
+            got = cps(PageLabels._format_page_label(v, None if st == "-" else LIT(st)))
+        except Exception as e:  # noqa: BLE001
+            got = "E:" + type(e).__name__
+        ctx.case(("fmt", st, v), True, branch="translated:_format_page_label:" + (st if len(st) == 1 else "other")
+                 + (":raises" if got.startswith("E:") else ""))
+        batch.add("gen.label %s %d" % (st, v), "gen.label", {"kind": "fmt", "style": st, "value": v}, got, "model")
     # alpha
     top = ctx.n(3000, 60000)
     first_bad = None
@@ -1825,6 +1912,10 @@ def run_formatters(ctx: C.Ctx, batch: Batch) -> None:
         ctx.case(("alpha", n), True, branch="alpha<=26" if n <= 26 else "alpha>26")
         batch.add("alpha %d" % n, "alpha", {"kind": "alpha", "value": n}, cps(got) if not got.startswith("E:") else got,
                   "model")
+        if n < 4000 or n % 7 == 0:      # translated code (Gen/LabelCode.lean): pass budget = value, keep the big ones few
+            batch.add("gen.alpha %d" % n, "gen.alpha", {"kind": "alpha", "value": n},
+                      cps(got) if not got.startswith("E:") else got, "model")
+            ctx.branch("translated:format_int_alpha" + (":assert" if got.startswith("E:") else ""))
         if exp is not None and n < 5000:
             batch.add("spec.alpha %d" % n, "spec.alpha", {"kind": "alpha", "value": n}, cps(exp), "spec")
         if exp is not None and got != exp:
